@@ -24,6 +24,18 @@ CHECKS = {
  "C08": ("exploration", "differential testing against crypto/cipher CFB / x/crypto / stdlib GCM references, exhaustive over length x cipher x aliasing, canary buffers; shared-instance workload under the Go race detector",
    "Every length 0..1500 for every cipher in both aliasing modes is compared with an independent reference (exhaustive in those dimensions, sampled in key/content).",
    "reference implementations trusted", "DESIGN.md §3 C08"),
+ "C09": ("exploration", "independent wire decoder (written from README) attached to every datagram handed to the PacketConn; reference decryption, CRC/GCM verification, FEC header rules, Reed-Solomon re-encoding, stream reassembly, nonce/datagram freshness sets",
+   "Every datagram of every scenario is decoded by an implementation that shares no code with the package's parsers, so symmetric encoder/parser changes are visible; held on the traffic produced (all packet classes observed).",
+   "trusted: crypto/*, x/crypto, hash/crc32, reedsolomon; scenarios sampled", "DESIGN.md §3 C09"),
+ "C10": ("exploration", "wire-length monitor and core output-callback monitor under any-int SetMtu values before/during traffic; enumerated staging-buffer fill levels; process-survival oracle",
+   "Held on the executions produced; the staging sweep enumerates every ACK-count/probe/segment-size combination around the MTU boundary for 15 MTU values.",
+   "pipeline drained before a switch so that 'from then on' is well defined", "DESIGN.md §3 C10"),
+ "C16": ("exploration", "decoder-state monitor (effective ratio after n packets) over exhaustively enumerated small ratio pairs and starting offsets plus sampled large ones; C07 oracle after convergence; stability soak with hostile arrival patterns; session-level runs",
+   "All unequal pairs with d,p<=4 at every starting offset are executed; larger ratios sampled.",
+   "uninterrupted-run precondition enforced by the generator / measured on the wire", "DESIGN.md §3 C16"),
+ "C17": ("exploration", "real-time stress of the real scheduler under the race detector with injected yields at hand-off points; in-task clock comparisons and per-task execution counters; control-timer-relative promptness verdict; both asynctimerchan modes",
+   "Held on ~10^5 (quick) tasks across deadline patterns and worker counts; never-early and at-most-once are hard verdicts, 'ran' is judged against a control timer so that machine stalls are inconclusive, not violations.",
+   "real-time scheduling of the sandbox", "DESIGN.md §3 C17"),
  "C12": ("exploration", "metamorphic trace comparison (base vs shifted sequence numbers / clock) on deterministic single-goroutine simulations; FEC and autotune wrap cases against the C07 oracle",
    "Deterministic replays make the normalised traces comparable byte for byte, so any dependence on absolute sn/clock values inside the explored scenarios is visible.",
    "offsets sampled around 2^31/2^32 and random; scenarios sampled", "DESIGN.md §3 C12"),
